@@ -48,6 +48,11 @@ type rsWorld struct {
 	lampA uint64
 	ids   map[string]ref.Identity
 	mu    sync.Mutex
+	// the application sets the serial number of the bridge (the first accessory of every /accessories body) to a new
+	// value of another length before every request: responses of different requests differ from their first KB on
+	bridge *accessory.Bridge
+	stampI uint64
+	stamps []string
 }
 
 func newRSWorld(seed int64, k int, n int) (*rsWorld, error) {
@@ -55,6 +60,7 @@ func newRSWorld(seed int64, k int, n int) (*rsWorld, error) {
 	rng := rngFor(seed, 23000+k)
 	bridge := accessory.NewBridge(accessory.Info{Name: fmt.Sprintf("Bridge-%d", k)})
 	accs := []*accessory.Accessory{bridge.Accessory}
+	w.bridge = bridge
 	for i := 0; i < n; i++ {
 		// names with characters a JSON encoder has to escape, all different
 		name := fmt.Sprintf("Lamp %03d of %d \"q\" <&> é\U0001F4A1 %08x", i, k, rng.Uint32())
@@ -70,10 +76,15 @@ func newRSWorld(seed int64, k int, n int) (*rsWorld, error) {
 	}
 	w.tr = tr
 	w.lampA = w.lamp.Accessory.ID
+	w.stampI = bridge.Info.SerialNumber.ID
+	w.stamps = []string{bridge.Info.SerialNumber.GetValue()}
 	for _, a := range accs {
 		w.names[a.ID] = a.Info.Name.GetValue()
 		w.nameI[a.ID] = a.Info.Name.ID
 		for _, sc := range a.Info.Service.Characteristics {
+			if a == bridge.Accessory && sc == bridge.Info.SerialNumber.Characteristic {
+				continue // the stamp changes with every request
+			}
 			if v, ok := sc.Value.(string); ok && sc.IsReadable() {
 				id := fmt.Sprintf("%d.%d", a.ID, sc.ID)
 				w.strs[id] = v
@@ -96,7 +107,18 @@ func (w *rsWorld) close() {
 }
 
 // checkAccessories: well-formed JSON, every accessory present once, every Name value as the application set it
-func (w *rsWorld) checkAccessories(body []byte) (bool, string) {
+// stamp sets a new serial number of the bridge and returns its index.
+func (w *rsWorld) stamp() int {
+	w.mu.Lock()
+	defer w.mu.Unlock()
+	n := len(w.stamps)
+	v := fmt.Sprintf("stamp-%d-", n) + strings.Repeat("s", (n*7)%23)
+	w.stamps = append(w.stamps, v)
+	w.bridge.Info.SerialNumber.SetValue(v)
+	return n
+}
+
+func (w *rsWorld) checkAccessories(body []byte, from int) (bool, string) {
 	var doc struct {
 		Accessories []struct {
 			Aid      uint64 `json:"aid"`
@@ -123,6 +145,19 @@ func (w *rsWorld) checkAccessories(body []byte) (bool, string) {
 		found := false
 		for _, s := range a.Services {
 			for _, c := range s.Characteristics {
+				if a.Aid == w.bridge.Accessory.ID && c.Iid == w.stampI {
+					// the serial number is one the application had set when the request was sent or has set since
+					v, _ := c.Value.(string)
+					w.mu.Lock()
+					okStamp := false
+					for _, st := range w.stamps[from:] {
+						okStamp = okStamp || st == v
+					}
+					w.mu.Unlock()
+					if !okStamp {
+						return false, fmt.Sprintf("serial number of the bridge %q: not a value the application set since the request", v)
+					}
+				}
 				if c.Iid == w.nameI[a.Aid] {
 					found = true
 					if v, _ := c.Value.(string); v != w.names[a.Aid] {
@@ -171,6 +206,7 @@ func (w *rsWorld) runWord(b Beh, seed int64) ([]J, error) {
 	rng := rngFor(seed, 24000000+b.ID)
 	conns := map[string]*ref.Conn{}
 	kinds := map[string]string{}
+	from := map[string]int{}
 	defer func() {
 		for _, c := range conns {
 			c.Close()
@@ -255,6 +291,7 @@ func (w *rsWorld) runWord(b Beh, seed int64) ([]J, error) {
 				path = w.charsPath()
 			}
 			kinds[s.C] = s.K
+			from[s.C] = w.stamp()
 			if err := c.WriteRaw(ref.BuildRequest("GET", path, "", nil)); err != nil {
 				o["ok"], o["why"] = false, "send: "+err.Error()
 			}
@@ -286,7 +323,7 @@ func (w *rsWorld) runWord(b Beh, seed int64) ([]J, error) {
 				if kinds[s.C] == "small" {
 					o["ok"], o["why"] = w.checkChars(m.Body)
 				} else {
-					o["ok"], o["why"] = w.checkAccessories(m.Body)
+					o["ok"], o["why"] = w.checkAccessories(m.Body, from[s.C])
 				}
 			}
 		default:
